@@ -274,6 +274,13 @@ var acceptPool = []string{"application/json", "text/plain", "*/*", "", "image/pn
 // passNonce is written before a pass starts and only read by the tasks.
 var passNonce string
 
+// orderSensitive: the operation's alternative ANDs two schemes; which one is asked first decides who is consulted at
+// all (the first "not applicable" or rejection ends the alternative), which error is reported and whose principal an
+// all-accepting alternative yields.
+func orderSensitive(p *reqPlan) bool {
+	return ops[p.op].id == "getSub"
+}
+
 // record is everything observed for one request; comparable with ==.
 type record struct {
 	status   int
@@ -685,6 +692,13 @@ func (prop) Run(t *testing.T, tape *kernel.Tape, sc kernel.Scenario) *kernel.Res
 			env.Violate("C09/foreign-state", "solo:"+ownClass(solo[i].own), "request %d (%s) alone: %s", i, op, solo[i].own)
 		} else if conc[i].own != "" {
 			env.Violate("C09/foreign-state", ownClass(conc[i].own), "request %d (%s) under the concurrent schedule: %s", i, op, conc[i].own)
+		}
+		// The two passes run on two separately built handlers. Where the answer to a request legitimately depends on the
+		// order in which the schemes of one alternative are consulted (which the description does not fix and a build may
+		// choose privately), "alone" and "concurrent" need not agree: such requests are left to the other oracles.
+		if orderSensitive(&plans[i]) {
+			env.Probe("solo-comparison-skipped:consultation-order-matters")
+			continue
 		}
 		if conc[i] != solo[i] {
 			env.Violate("C09/differs-from-solo", flow+":"+diffField(solo[i], conc[i]), "request %d (%s): under the concurrent schedule %+v, alone %+v", i, op, conc[i], solo[i])
